@@ -20,6 +20,7 @@ mod c15;
 mod c17;
 mod c18;
 mod c19;
+mod c20;
 mod queries;
 
 use std::path::PathBuf;
@@ -88,6 +89,7 @@ fn main() {
     "C17" => c17::run(&ctx),
     "C18" => c18::run(&ctx),
     "C19" => c19::run(&ctx),
+    "C20" => c20::run(&ctx),
     _ => {
       eprintln!("unknown property {}", prop);
       std::process::exit(2);
